@@ -188,8 +188,8 @@ def shards(tier, prop):
     out = []
     for n in (1, 2, 3, 4):
         for split in (False, True):
-            if tier == 'quick' and n == 4 and split:
-                continue
+            if tier == 'quick' and (n == 4 or (n == 3 and split)):
+                continue            # quick: 4 machines, and 3 machines with a per-observation split, are thorough-only
             out.append({'fn': 'prov_ok', 'pin': {'n': n, 'split': split}, 'cond_timeout': T, 'path_timeout': 30})
     for p0 in range(4):
         for other in range(3):
